@@ -4,6 +4,9 @@
      <k> P new|alloc|delete i|free
      <k> D new perf|resize rows cols freqs|free
      <k> A type frows fcols brows bcols srows scols
+     <k> H new nparams|get p|find p|free                       (vnacal_new_t parameter hash, coq/Mem/HashTab.v)
+     <k> M new|set rank hv name|get rank hv name|del rank hv name|keys|free     (vnaproperty map)
+   H and M ops append  | <allocation> <count> | <bucket>:<key>,<key>...  and M ops  | <order list>  (keys: | <keys>)
    k = -1: no fault; k >= 0: request number k+1 of this op fails.
    Output per op: <ret class> <errno class> <live blocks>  or  FAULT <kind>. *)
 open MODELS
@@ -16,11 +19,21 @@ let fault_name = function OOB -> "OOB" | UseUninit -> "UseUninit" | UseAfterFree
 let errno_name = function E0 -> "E0" | EINVAL -> "EINVAL" | ENOENT -> "ENOENT" | ENOMEM -> "ENOMEM"
 let out_str = function Done -> "Done E0" | Err e -> "Err " ^ errno_name e
 (* ledgers: the list and the parameter table are separate objects with separate ledgers *)
+let n_of_int n = if n = 0 then N0 else Npos (pos_of_int n)
+let dump_tab (h : htab) =
+  let b = Buffer.create 64 in
+  Buffer.add_string b (Printf.sprintf " | %d %d |" (length h.hbuckets) (int_of_nat h.hcount));
+  List.iteri (fun i c -> if c <> [] then
+      Buffer.add_string b (Printf.sprintf " %d:%s" i (String.concat "," (List.map (fun n -> string_of_int (int_of_nat n.nkey)) c)))) h.hbuckets;
+  Buffer.contents b
+let dump_keys l = " |" ^ String.concat "" (List.map (fun k -> " " ^ string_of_int (int_of_nat k)) l)
 let with_fault k (s : astate) : astate = { fail_at = (if k < 0 then None else Some (nat_of_int k)); live = s.live; fresh = s.fresh }
 let () =
   let lst = ref None and ls = ref (start None) in
   let pc = ref None and ps = ref (start None) in
   let dd = ref None and ds = ref (start None) in
+  let hh = ref None and hs = ref (start None) in
+  let mm = ref None and ms = ref (start None) in
   (try
     while true do
       let line = input_line stdin in
@@ -91,6 +104,49 @@ let () =
            let cells = if r < 0 || c < 0 then (-1) else r * c in
            (match resize Fixed d (z_of_int ports) (z_of_int cells) (z_of_int f) s with
             | Ok ((d', out), s') -> dd := Some d'; ds := s'; Printf.printf "%s %d\n" (out_str out) (length s'.live)
+            | Fault f -> Printf.printf "FAULT %s\n" (fault_name f)))
+      | k :: "H" :: op :: args ->
+        let k = int_of_string k in
+        (match op, !hh with
+         | "new", _ ->
+           let s = with_fault k (start None) in
+           (match ph_init s with
+            | Ok (Some h, s') -> hh := Some h; hs := s'; Printf.printf "Done E0 %d%s\n" (length s'.live) (dump_tab h)
+            | Ok (None, s') -> hh := None; hs := s'; Printf.printf "Err ENOMEM %d\n" (length s'.live)
+            | Fault f -> Printf.printf "FAULT %s\n" (fault_name f))
+         | "free", Some h ->
+           (match table_free h (with_fault k !hs) with
+            | Ok (_, s') -> hh := None; hs := s'; Printf.printf "Done E0 %d\n" (length s'.live)
+            | Fault f -> Printf.printf "FAULT %s\n" (fault_name f))
+         | _, None -> print_string "SKIP E0 0\n"
+         | _, Some h ->
+           let p = z_of_int (int_of_string (List.nth args 0)) in
+           let o = (match op with "get" -> PHGet p | _ -> PHFind p) in
+           (match phstep HFixed h o (with_fault k !hs) with
+            | Ok ((h', out), s') -> hh := Some h'; hs := s'; Printf.printf "%s %d%s\n" (out_str out) (length s'.live) (dump_tab h')
+            | Fault f -> Printf.printf "FAULT %s\n" (fault_name f)))
+      | k :: "M" :: op :: args ->
+        let k = int_of_string k in
+        (match op, !mm with
+         | "new", _ ->
+           let s = with_fault k (start None) in
+           (match map_new s with
+            | Ok (Some m, s') -> mm := Some m; ms := s'; Printf.printf "Done E0 %d%s%s\n" (length s'.live) (dump_tab m.mtab) (dump_keys m.morder)
+            | Ok (None, s') -> mm := None; ms := s'; Printf.printf "Err ENOMEM %d\n" (length s'.live)
+            | Fault f -> Printf.printf "FAULT %s\n" (fault_name f))
+         | "free", Some m ->
+           (match map_free m (with_fault k !ms) with
+            | Ok (_, s') -> mm := None; ms := s'; Printf.printf "Done E0 %d\n" (length s'.live)
+            | Fault f -> Printf.printf "FAULT %s\n" (fault_name f))
+         | _, None -> print_string "SKIP E0 0\n"
+         | _, Some m ->
+           let key () = nat_of_int (int_of_string (List.nth args 0)) and hv () = n_of_int (int_of_string (List.nth args 1)) in
+           let o = (match op with "set" -> MSet (key (), hv ()) | "get" -> MGet (key (), hv ()) | "del" -> MDel (key (), hv ()) | _ -> MKeys) in
+           (match mstep HFixed m o (with_fault k !ms) with
+            | Ok (((m', out), ks), s') ->
+              mm := Some m'; ms := s';
+              Printf.printf "%s %d%s%s%s\n" (out_str out) (length s'.live) (dump_tab m'.mtab) (dump_keys m'.morder)
+                (if op = "keys" then dump_keys ks else "")
             | Fault f -> Printf.printf "FAULT %s\n" (fault_name f)))
       | _ :: "A" :: ty :: args ->
         let a i = int_of_string (List.nth args i) in
